@@ -10,6 +10,11 @@ mod sigs;
 mod genpaths;
 mod bls;
 mod treehash;
+mod gen_types;
+mod streamable;
+
+#[global_allocator]
+static ALLOC: streamable::Counting = streamable::Counting;
 
 fn main() {
     let args: Vec<String> = std::env::args().collect();
@@ -25,6 +30,11 @@ fn main() {
         std::fs::read_to_string(p).expect("replay file").lines()
             .filter(|l| !l.starts_with('#') && !l.trim().is_empty()).map(|l| l.to_string()).collect()
     });
+    if prop == "C13-worker" {
+        // re-invoked by streamable::run_isolated: vharness C13-worker <dir> <start> <single|all>
+        streamable::worker_main(dir, args[3].parse().expect("start"), args[4] == "single");
+        return;
+    }
     let mut o = out::Out::new(dir);
     match prop {
         "C11" => ints::run(&mut o, seed, thorough, replay),
@@ -33,6 +43,8 @@ fn main() {
         "C03" => locks::run(&mut o, seed, thorough, replay),
         "C05" => sigs::run(&mut o, seed, thorough, replay),
         "C06" => cond::run_c06(&mut o, seed, thorough, replay),
+        "C13" => streamable::run_c13(&mut o, dir, seed, thorough, replay),
+        "C14" => streamable::run_c14(&mut o, dir, seed, thorough, replay),
         "C17" => treehash::run(&mut o, seed, thorough, replay),
         "C15" => bls::run(&mut o, seed, thorough, replay),
         "C07" => genpaths::run_c07(&mut o, seed, thorough, replay),
